@@ -113,6 +113,9 @@ def shard_generate(args: tuple) -> dict:
             if len(out["harness_errors"]) >= 3:
                 return
             d = run_case(mod, case)
+            if os.environ.get("VERIF_DUMP_CASES"):  # debugging aid: every generated case with its labels
+                with open(os.path.join(os.environ["VERIF_DUMP_CASES"], f"{prop}.{shard}.jsonl"), "a") as fh:
+                    fh.write(json.dumps({"case": case, "labels": d.get("labels"), "violations": [v["kind"] for v in d.get("violations", [])]}) + "\n")
             if "harness_error" in d:
                 out["harness_errors"].append({"case": case, "error": d["harness_error"]})
                 return
@@ -192,6 +195,9 @@ def shard_shrink(args: tuple) -> dict:
             if t_end[0] is not None and time.time() > t_end[0]:
                 return
             d = run_case(mod, case)
+            if os.environ.get("VERIF_DUMP_CASES"):  # debugging aid: every generated case with its labels
+                with open(os.path.join(os.environ["VERIF_DUMP_CASES"], f"{prop}.{shard}.jsonl"), "a") as fh:
+                    fh.write(json.dumps({"case": case, "labels": d.get("labels"), "violations": [v["kind"] for v in d.get("violations", [])]}) + "\n")
             if "harness_error" in d:
                 return
             if any(v["kind"] == kind for v in d["violations"]):
